@@ -96,7 +96,9 @@ def mk_abi_method(real: Real, m, k):
             return mark
         return pt.Seq(mark, output.set(pt.Int(1000 + k)) if m["ret"] == "uint64" else output.set("r%d" % k))
 
-    fn = _mk_fn(m["name"], ", ".join(params), "_body(output)" if m["ret"] != "void" else "_body(None)", {"pt": pt, "_body": _body})
+    # via "add-override": the Python function has another name; it is registered under m["name"] with overriding_name
+    pyname = m["name"] + "_impl" if m.get("via") == "add-override" else m["name"]
+    fn = _mk_fn(pyname, ", ".join(params), "_body(output)" if m["ret"] != "void" else "_body(None)", {"pt": pt, "_body": _body})
     return fn
 
 
@@ -143,6 +145,8 @@ def build_router(real: Real, cfg):
             router.method(fn, **mc)
         elif via == "decorator-sparse":
             router.method(fn, **{k: v for k, v in mc.items() if v != CC.NEVER})
+        elif via == "add-override":
+            router.add_method_handler(pt.ABIReturnSubroutine(fn), overriding_name=m["name"], method_config=pt.MethodConfig(**mc))
         else:
             router.add_method_handler(pt.ABIReturnSubroutine(fn), method_config=pt.MethodConfig(**mc))
     return router
@@ -342,7 +346,17 @@ class Ctx:
         self.rep.violation(what, replay, key=key, no_input=no_input)
 
     def load_teal(self, tid, text, sels):
-        for sg, sl in sels:
+        # every `method "sig"` literal of the text needs its selector (SHA-512/256 is computed outside Lean): also those the
+        # contract does not list - a program dispatching on another signature than the registered one must be executable
+        import re as _re
+        extra = []
+        for sg in set(_re.findall(r'^method "(.*)"', text, flags=_re.M)):
+            if sg not in {x for x, _ in sels}:
+                try:
+                    extra.append((sg, selector(self.real, sg)))
+                except Exception:  # noqa: BLE001  (not a parsable signature: the grammar will report it)
+                    pass
+        for sg, sl in list(sels) + extra:
             if sg not in self.known_sels:
                 self.drv.ask(f"sel {hexs(sg.encode())} {hexs(sl)}")
                 self.known_sels.add(sg)
@@ -483,6 +497,9 @@ def gen_cfg(r, max_methods):
             # only the keywords that differ from NEVER are written: the omitted ones must default to NEVER
             # (Router.method: no_op defaults to CALL only when NO on-completion keyword is given)
             via = "decorator-sparse"
+        elif c < 0.65:
+            # registered under another name than the Python function's: dispatch must use the REGISTERED signature
+            via = "add-override"
         methods.append({"name": f"m{k}", "args": list(args), "ret": ret, "mc": mc, "via": via})
     bare = {}
     if r.random() < 0.75:
